@@ -20,8 +20,21 @@ CONTEXTS = ['root', 'seq-item', 'map-value', 'map-key', 'set-member', 'omap-valu
             'second-doc', 'omap-entry', 'pairs-entry', 'deep', 'key-and-value', 'merge-overridden', 'mergelist-overridden', 'dup-key-overridden']
 
 
+# the tagged node below a collection that itself carries an explicit core tag - of the right kind or not (a constructor
+# that does not look at its node's children must not make the document acceptable); the two that coincide with
+# 'omap-entry' / 'pairs-entry' are left out
+TYPED_CONTEXTS = ['under-%s-%s' % (t, pos) for t in CORE for pos in ('seq', 'mapval', 'mapkey')
+                  if (t, pos) not in (('omap', 'seq'), ('pairs', 'seq'))] + ['set-merge-value']
+TYPED_KINDS = ('scalar-x', 'seq-x', 'map-ab', 'long')
+
+
 def in_context(ctx, node):
     """node is flow-syntax text 'TAG KIND'"""
+    if ctx.startswith('under-'):
+        _, t, pos = ctx.split('-')
+        return {'seq': '!!%s [%s]\n', 'mapval': '!!%s {k: %s}\n', 'mapkey': '!!%s {? %s : v}\n'}[pos] % (t, node)
+    if ctx == 'set-merge-value':
+        return '!!set {<<: {k: %s}}\n' % node
     if ctx == 'root':
         return node + '\n'
     if ctx == 'seq-item':
